@@ -40,6 +40,7 @@ func runC18(c *core.Ctx) {
 	c18R3(c)
 	c18R4(c)
 	jsonTargetRule(c, "C18.R5", "service/presence")
+	nilGossiperRule(c, "C18.R6")
 }
 
 func c18R1(c *core.Ctx) { c18R1as(c, "C18.R1") }
